@@ -231,6 +231,43 @@ func c03Run(e *core.Env) {
 		e.SetBound("journal_depth_"+pl.tag, pl.n)
 	}
 	e.BeginTail()
+	if e.Take() {
+		// mapping asset accounts onto shorter names (-m level:suffix,^Assets) changes the asset
+		// rows only: the revaluation gains stay on the income accounts that mirror the
+		// original asset accounts. Twenty days of price changes on two foreign positions,
+		// in process and on the free-running binary.
+		body := []jr.Dir{jr.P("2020-01-01", "USD", "0.9", "CHF"), jr.P("2020-01-01", "AAPL", "100", "USD"),
+			jr.T("2020-01-01", "usd", jr.B(accOpening, accChecking, "100", "USD")), jr.T("2020-01-01", "aapl", jr.B(accOpening, accCash, "2", "AAPL")),
+			jr.T("2020-01-01", "usd savings", jr.B(accOpening, accSavings, "50", "USD"))}
+		for i := 1; i <= 20; i++ {
+			d := fmt.Sprintf("2020-01-%02d", 1+i)
+			body = append(body, jr.P(d, "USD", fmt.Sprintf("0.9%02d", i), "CHF"), jr.P(d, "AAPL", fmt.Sprint(100+i), "USD"))
+		}
+		drv.Files(map[string]string{"j.knut": jr.RenderAll(append(opensPrefix(), body...))})
+		rest := func(s string) string {
+			if i := strings.Index(s, "Total (A+L)"); i >= 0 {
+				return s[i:]
+			}
+			return "no total row:\n" + s
+		}
+		for _, m := range []string{"1:1,^Assets", "2:1,^Assets", "1:2,^Assets"} {
+			for _, bin := range []bool{false, true} {
+				run := func(args ...string) *core.Outcome {
+					if bin {
+						return drv.RunBinaryFree(time.Minute, args...)
+					}
+					return drv.Run(nil, args...)
+				}
+				plain := run("balance", "--csv", "-v", "CHF", "--days", "j.knut")
+				mapped := run("balance", "--csv", "-v", "CHF", "--days", "-m", m, "j.knut")
+				e.Count("evaluations")
+				if plain.Exit != 0 || mapped.Exit != 0 || rest(plain.Stdout) != rest(mapped.Stdout) {
+					e.Violation("C03:mapping-assets-changes-income-rows", fmt.Sprintf("binary=%v: knut balance --csv -v CHF --days -m %s j.knut\nrows below the assets section:\n%s\nwithout -m:\n%s%s%s", bin, m, clip(rest(mapped.Stdout), 1500), clip(rest(plain.Stdout), 1500), plain.Stderr, mapped.Stderr), balCase{Body: body}, nil)
+					break
+				}
+			}
+		}
+	}
 	// position life histories (closed and reopened positions, several positions)
 	chainN := core.Pick(e, 4, 6)
 	var chainCfgs []ref.BalCfg
